@@ -36,6 +36,8 @@ def run(repo: Repo, rep, tier: str):
     rep.count("files_in_scope", repo.consult_all())
     census = mutable_census(repo, rep, "C17")
     escape_rule(repo, rep, "C17", census)
+    tuple_elements_rule(repo, rep, "C17")
+    memoized_rule(repo, rep, "C17")
     fresh_state_rule(repo, rep, "C17", census)
     shared_class_state_rule(repo, rep, "C17", census)
     constructor_binding_rule(repo, rep, "C17")
@@ -46,6 +48,8 @@ def run(repo: Repo, rep, tier: str):
     # an operation on one project must not write into another project's modules: foreign operands are refused first
     from . import c07
     c07.ownership_refusal(repo, rep, "C17")
+    from . import c15
+    c15.user_defined_fresh(repo, rep, "C17", "R5u")
 
 
 def _rv_classes(repo: Repo) -> List[ClassInfo]:
@@ -73,6 +77,110 @@ def is_mutable_value(repo: Repo, ci: Optional[ClassInfo], e: ast.AST) -> bool:
                 pass
             return True
     return False
+
+
+def is_tuple_of_mutables(repo: Repo, ci: Optional[ClassInfo], e: ast.AST) -> bool:
+    """An immutable container whose elements are mutable objects: `(K(), K())`, `tuple(map(K, …))`, `tuple(K(x) for x in …)`."""
+    def elem_mutable(x) -> bool:
+        return is_mutable_value(repo, ci, x)
+
+    def ctor_mutable(f) -> bool:
+        k = repo.class_of_expr(f, ci, ci.file if ci else None)
+        if k is None or repo.is_enum(k):
+            return False
+        try:
+            if repo.is_subclass(k, "Controller") or k.name in ("Option",):
+                return False
+        except AnchorMissing:
+            pass
+        return True
+    if isinstance(e, ast.Tuple):
+        return any(elem_mutable(x) for x in e.elts)
+    if isinstance(e, ast.Call) and norm(e.func) in ("tuple", "frozenset") and len(e.args) == 1:
+        a = e.args[0]
+        if isinstance(a, ast.Call) and norm(a.func) == "map" and a.args:
+            return ctor_mutable(a.args[0])
+        if isinstance(a, (ast.GeneratorExp, ast.ListComp)):
+            return elem_mutable(a.elt)
+        if isinstance(a, (ast.List, ast.Tuple)):
+            return any(elem_mutable(x) for x in a.elts)
+        if isinstance(a, ast.BinOp) and isinstance(a.left, (ast.List, ast.Tuple)):
+            return any(elem_mutable(x) for x in a.left.elts)
+    return False
+
+
+TUPLE_FIXTURE = "UNSET = tuple(map(Mapping, [(0, 0)] * 4))"
+
+
+def tuple_elements_rule(repo: Repo, rep, P: str):
+    """Elements of a class-level tuple of mutable objects must not be installed in instance state (they would be
+    one object in every instance); reading their attributes or deep-copying them is fine."""
+    mm = repo.cls("MetaModule", module="rv.modules.metamodule")
+    fx = ast.parse(TUPLE_FIXTURE).body[0].value
+    rep.count("tuple_of_mutables_fixture", int(is_tuple_of_mutables(repo, mm, fx)), 1)
+    found: Dict[str, Tuple[ClassInfo, ast.AST]] = {}
+    for c in _rv_classes(repo):
+        if repo.is_enum(c):
+            continue
+        for name, val in c.assigns.items():
+            if isinstance(val, ast.AST) and is_tuple_of_mutables(repo, c, val):
+                found[name] = (c, val)
+    rep.count("class_level_tuples_of_mutables", len(found))
+    if not found:
+        rep.ok(f"{P}.R2t", "rv/**", "no class-level tuple of mutable objects", nontrivial=False)
+        return
+    for rel, sf in sorted(repo.files.items()):
+        if not sf.modname.startswith("rv") or sf.modname.startswith(("rv.tools", "rv._vendor")):
+            continue
+        parents: Dict[int, ast.AST] = {}
+        for node in ast.walk(sf.tree):
+            for ch in ast.iter_child_nodes(node):
+                parents[id(ch)] = node
+        for node in ast.walk(sf.tree):
+            if not (isinstance(node, ast.Attribute) and node.attr in found and isinstance(node.ctx, ast.Load)):
+                continue
+            owner, val = found[node.attr]
+            if norm(node.value).split(".")[-1] not in (owner.name, "self", "cls") and not norm(node.value).endswith(owner.name):
+                continue
+            # climb: subscripts / slices / list() keep the same element objects
+            cur = node
+            while True:
+                p = parents.get(id(cur))
+                if isinstance(p, ast.Subscript) and p.value is cur:
+                    cur = p
+                    continue
+                if isinstance(p, ast.Call) and cur in p.args and norm(p.func) in ("list", "tuple", "reversed", "sorted", "iter", "copy", "copy.copy"):
+                    cur = p
+                    continue
+                if isinstance(p, ast.Starred):
+                    cur = p
+                    continue
+                break
+            p = parents.get(id(cur))
+            where = f"{rel}:{node.lineno}"
+            con = f"{rel}:{owner.qualname}.{node.attr}"
+            text = norm(p)[:120] if p is not None else norm(node)
+            installs = False
+            if isinstance(p, ast.Call) and cur in p.args:
+                f = p.func
+                if norm(f) in ("deepcopy", "copy.deepcopy", "len"):
+                    rep.ok(f"{P}.R2t", con, text, "deep-copied / measured")
+                    continue
+                if isinstance(f, ast.Attribute) and f.attr in ("extend", "append", "insert", "add", "update", "setdefault", "__setitem__"):
+                    installs = True
+            if isinstance(p, (ast.Assign, ast.AugAssign)) and getattr(p, "value", None) is cur:
+                tg = p.targets if isinstance(p, ast.Assign) else [p.target]
+                if any(isinstance(t, (ast.Attribute, ast.Subscript)) for t in tg):
+                    installs = True
+            if isinstance(p, ast.Attribute):
+                rep.ok(f"{P}.R2t", con, text, "attribute of an element is read")
+                continue
+            if installs:
+                rep.violation(f"{P}.R2t", con, text,
+                              f"elements of the class-level tuple `{owner.name}.{node.attr}` ({norm(val)[:60]}) are installed in an object's "
+                              "state: the same mutable element object ends up in every instance, so editing it in one changes the others", where)
+            else:
+                rep.info(f"{P}.R2t", con, text, "use of a class-level tuple of mutable objects not classified")
 
 
 def mutable_census(repo: Repo, rep, P: str) -> Dict[str, Dict[str, ast.AST]]:
@@ -132,10 +240,12 @@ def _instance_assigned(repo: Repo, c: ClassInfo) -> Dict[str, List[Tuple[ClassIn
 
 
 # ------------------------------------------------------------------------------------ R2
-def escape_rule(repo: Repo, rep, P: str, census):
+def escape_rule(repo: Repo, rep, P: str, census, only=None, rule: str = "R2", floor: int = 15):
     n_loads = 0
     seen_loads = set()
     for c in _rv_classes(repo):
+        if only is not None and not only(c):
+            continue
         inh = _inherited_mutables(repo, c, census)
         if not inh:
             continue
@@ -176,27 +286,45 @@ def escape_rule(repo: Repo, rep, P: str, census):
                 use = _classify_use(node, parents)
                 text = f"{recv}.{node.attr}  ({use[0]}: {use[1][:70]})"
                 if use[0] in ("read", "copy"):
-                    rep.ok(f"{P}.R2", con, text, f"class-level `{owner.name}.{node.attr}` is only read / copied here")
+                    rep.ok(f"{P}.{rule}", con, text, f"class-level `{owner.name}.{node.attr}` is only read / copied here")
                 elif use[0] == "mutate":
-                    rep.violation(f"{P}.R2", con, text,
+                    rep.violation(f"{P}.{rule}", con, text,
                                   f"the class-level value `{owner.name}.{node.attr}` is mutated in place: every instance (and every clone) "
                                   "sees the change", where)
                 elif use[0] == "store":
-                    rep.violation(f"{P}.R2", con, text,
+                    rep.violation(f"{P}.{rule}", con, text,
                                   f"the class-level value `{owner.name}.{node.attr}` is stored into instance state without a copy: "
                                   "all instances share one container and mutating one changes the others", where)
                 elif use[0] == "alias":
                     # local alias: follow it
                     verdict = _follow_alias(fn, use[2])
                     if verdict is None:
-                        rep.ok(f"{P}.R2", con, text, "local alias is only read")
+                        rep.ok(f"{P}.{rule}", con, text, "local alias is only read")
                     else:
-                        rep.violation(f"{P}.R2", con, text + f" → {verdict[:80]}",
+                        rep.violation(f"{P}.{rule}", con, text + f" → {verdict[:80]}",
                                       f"the class-level value `{owner.name}.{node.attr}` escapes through a local alias and is stored/mutated",
                                       where)
                 else:
-                    rep.info(f"{P}.R2", con, text, "use not classified (argument / return)")
-    rep.count("class_mutable_loads_classified", n_loads, 15)
+                    rep.info(f"{P}.{rule}", con, text, "use not classified (argument / return)")
+    rep.count("class_mutable_loads_classified", n_loads, floor)
+
+
+def array_chunk_defaults_rule(repo: Repo, rep, P: str, rule: str, within: Optional[Tuple[str, ...]] = None, floor: int = 1):
+    """ArrayChunk-family payload classes (curves, waveforms, harmonics, mapping tables): a class-level list default
+    reaches an instance only through a copy.  `within` restricts to chunk classes nested in the named module classes."""
+    class Quiet:
+        def __getattr__(self, name):
+            return lambda *a, **k: None
+    census = mutable_census(repo, Quiet(), P)
+
+    def only(c: ClassInfo) -> bool:
+        try:
+            if not repo.is_subclass(c, "ArrayChunk"):
+                return False
+        except AnchorMissing:
+            return False
+        return within is None or any(w in c.qualname.split(".") for w in within)
+    escape_rule(repo, rep, P, census, only=only, rule=rule, floor=floor)
 
 
 def _classify_use(node: ast.AST, parents) -> Tuple[str, str, Optional[str]]:
@@ -365,7 +493,7 @@ def fresh_state_rule(repo: Repo, rep, P: str, census):
                 rep.violation(f"{P}.R3", f"{c.file.rel}:{c.qualname}.__init__", f"no super().__init__(); base assigns {missing[:6]}",
                               f"{c.name}.__init__ does not call the base constructor: the per-instance state {missing[:4]} is never created "
                               "(class-level fall-backs are shared)", f"{c.file.rel}:{init.lineno}")
-    rep.count("in_place_mutated_attributes", n, 13)
+    rep.count("in_place_mutated_attributes", n, 10)
 
 
 def _mutated_attr_names(repo: Repo) -> Dict[str, Tuple[str, ast.AST]]:
@@ -523,6 +651,74 @@ def default_args_rule(repo: Repo, rep, P: str):
                                       f"{c.file.rel}:{val.lineno}")
 
 
+MEMO_DECORATORS = {"lru_cache", "cache", "functools.lru_cache", "functools.cache", "memoize", "memoized", "cached"}
+MEMO_FIXTURE = """
+@lru_cache(maxsize=8)
+def parse(cls, data):
+    m = cls()
+    m.data = data
+    return m
+"""
+
+
+def memoized_returns(repo: Repo, ci: Optional[ClassInfo], fn: ast.FunctionDef) -> Optional[List[Tuple[ast.AST, str]]]:
+    """None if fn is not memoized; else [(return node, 'mutable' | 'immutable' | 'unknown')]."""
+    decos = [norm(d.func if isinstance(d, ast.Call) else d) for d in fn.decorator_list]
+    if not any(d in MEMO_DECORATORS or d.split(".")[-1] in MEMO_DECORATORS for d in decos):
+        return None
+    defs: Dict[str, ast.AST] = {}
+    for n in walk_no_nested(fn):
+        if isinstance(n, ast.Assign) and len(n.targets) == 1 and isinstance(n.targets[0], ast.Name):
+            defs.setdefault(n.targets[0].id, n.value)
+    out = []
+    for n in walk_no_nested(fn):
+        if isinstance(n, ast.Return) and n.value is not None:
+            v = defs.get(n.value.id, n.value) if isinstance(n.value, ast.Name) else n.value
+            if is_mutable_value(repo, ci, v) or (isinstance(v, ast.Call) and norm(v.func) in ("cls", "self.__class__", "type(self)")):
+                out.append((n, "mutable"))
+            elif isinstance(v, ast.Constant) or (isinstance(v, ast.Call) and norm(v.func) in IMMUTABLE_CTORS) \
+                    or isinstance(v, (ast.Compare, ast.BinOp, ast.JoinedStr)):
+                out.append((n, "immutable"))
+            else:
+                out.append((n, "unknown"))
+    return out
+
+
+def memoized_rule(repo: Repo, rep, P: str):
+    """A memoized function hands the same object to every caller: it must not return a mutable object."""
+    fx = ast.parse(MEMO_FIXTURE).body[0]
+    hits = memoized_returns(repo, None, fx) or []
+    rep.count("memoized_rule_positive_fixture_hits", sum(1 for _, k in hits if k == "mutable"), 1)
+    n = 0
+    for rel, sf in sorted(repo.files.items()):
+        if not sf.modname.startswith("rv") or sf.modname.startswith(("rv.tools", "rv._vendor")):
+            continue
+        owner: Dict[int, ClassInfo] = {}
+        for c in repo.all_classes():
+            if c.file is sf:
+                for fn in list(c.methods.values()) + list(c.getters.values()):
+                    owner[id(fn)] = c
+        for fn in ast.walk(sf.tree):
+            if not isinstance(fn, (ast.FunctionDef, ast.AsyncFunctionDef)):
+                continue
+            res = memoized_returns(repo, owner.get(id(fn)), fn)
+            if res is None:
+                continue
+            n += 1
+            con = f"{rel}:{fn.name}"
+            for node, kind in res:
+                if kind == "mutable":
+                    rep.violation(f"{P}.R4m", con, f"@{norm(fn.decorator_list[-1])[:40]} … {norm(node)}",
+                                  "a memoized function returns a mutable object: every caller with equal arguments (other modules, "
+                                  "other loads, clones) receives the same object, so editing it in one place changes the others",
+                                  f"{rel}:{node.lineno}")
+                elif kind == "unknown":
+                    rep.inconclusive(f"{P}.R4m", con, norm(node), "memoized function returns a value of unknown mutability", f"{rel}:{node.lineno}")
+                else:
+                    rep.ok(f"{P}.R4m", con, norm(node), "memoized value is immutable")
+    rep.count("memoized_functions", n)
+
+
 # ------------------------------------------------------------------------------------ R5
 POSITIVE_FIXTURE = """
 def retune(self, name, lo, hi):
@@ -566,7 +762,62 @@ def descriptor_stores(fn: ast.AST) -> List[ast.AST]:
     return hits
 
 
+def descriptor_self_state(repo: Repo, rep, P: str, rule: str, only: Optional[Tuple[str, ...]] = None):
+    """A descriptor object (a class with __get__/__set__) is one object per owning class.  Its access methods must keep
+    per-instance state on `instance`, never on `self`: state written to `self` in __get__/__set__ is shared by all
+    instances of the module class (and survives from one object to the next)."""
+    n = 0
+    for c in _rv_classes(repo):
+        try:
+            mro = repo.mro(c)
+        except AnchorMissing:
+            mro = [c]
+        if not any("__get__" in k.methods or "__set__" in k.methods for k in mro):
+            continue
+        if only is not None and not any(k.name in only for k in mro):
+            continue
+        for mname in ("__get__", "__set__", "__delete__"):
+            fn = c.methods.get(mname)
+            if fn is None:
+                continue
+            n += 1
+            selfname = fn.args.args[0].arg if fn.args.args else "self"
+            bad = []
+            for node in walk_no_nested(fn):
+                tg = []
+                if isinstance(node, ast.Assign):
+                    tg = node.targets
+                elif isinstance(node, (ast.AugAssign, ast.AnnAssign)):
+                    tg = [node.target]
+                for t in tg:
+                    for tt in (t.elts if isinstance(t, (ast.Tuple, ast.List)) else [t]):
+                        root = tt
+                        while isinstance(root, (ast.Attribute, ast.Subscript)):
+                            root = root.value
+                        if isinstance(tt, (ast.Attribute, ast.Subscript)) and isinstance(root, ast.Name) and root.id == selfname:
+                            bad.append(node)
+                if isinstance(node, ast.Call) and norm(node.func) == "setattr" and node.args and norm(node.args[0]) == selfname:
+                    bad.append(node)
+                if isinstance(node, ast.Call) and isinstance(node.func, ast.Attribute) and node.func.attr in MUTATING_METHODS:
+                    root = node.func.value
+                    while isinstance(root, (ast.Attribute, ast.Subscript)):
+                        root = root.value
+                    if isinstance(root, ast.Name) and root.id == selfname:
+                        bad.append(node)
+            con = f"{c.file.rel}:{c.qualname}.{mname}"
+            if bad:
+                for b in bad:
+                    rep.violation(f"{P}.{rule}", con, norm(b)[:100],
+                                  f"`{mname}` of a descriptor writes to the descriptor object itself: the descriptor is one object per "
+                                  "module class, so this state is shared by every module of the type (and leaks from one object to the next)",
+                                  f"{c.file.rel}:{b.lineno}")
+            else:
+                rep.ok(f"{P}.{rule}", con, f"no store to `{selfname}.*`", "per-instance state is kept on the instance", nontrivial=False)
+    rep.count(f"descriptor_access_methods[{','.join(only) if only else 'all'}]", n, 2)
+
+
 def descriptor_rule(repo: Repo, rep, P: str):
+    descriptor_self_state(repo, rep, P, "R5s")
     n = 0
     # the expected count on a healthy tree is zero: keep a positive example that must match on every run
     fx = ast.parse(POSITIVE_FIXTURE).body[0]
